@@ -85,13 +85,18 @@ Hist3 == IF Quick THEN {}
                : o1 \in OpsSmall, o2 \in OpsSmall, o3 \in OpsSmall}
 
 \* (4) copy for all length pairs and element types
-CopyCases == {CaseOf("C03/copy/" \o ty \o "/" \o ToString(ld) \o "-" \o ToString(ls),
-                     <<Def1("d", SliceLit(ty, [k \in 1..ld |-> NewOf(ty)])), Def1("s", SliceLit(ty, [k \in 1..ls |-> ElemOf(ty, k)])),
-                       Def1("n", CopyE("d", Var("s"))), PrintS(<<Var("n"), LenE(Var("d")), LenE(Var("s"))>>),
-                       RangeS("k", "v", Var("d"), <<PrintS(<<Var("k"), Var("v")>>)>>),
+\* the count that copy reports is used (defined, printed, compared) or discarded (copy as a statement, the form the README shows)
+CopyForms == {"used", "stmt", "printed", "infunc"}
+CopyCases == {CaseOf("C03/copy/" \o f \o "/" \o ty \o "/" \o ToString(ld) \o "-" \o ToString(ls),
+                     <<Def1("d", SliceLit(ty, [k \in 1..ld |-> NewOf(ty)])), Def1("s", SliceLit(ty, [k \in 1..ls |-> ElemOf(ty, k)]))>>
+                     \o (CASE f = "used" -> <<Def1("n", CopyE("d", Var("s"))), PrintS(<<Var("n"), LenE(Var("d")), LenE(Var("s"))>>)>>
+                           [] f = "stmt" -> <<ExprS(CopyE("d", Var("s"))), PrintS(<<LenE(Var("d")), LenE(Var("s"))>>)>>
+                           [] f = "printed" -> <<PrintS(<<CopyE("d", Var("s")), LenE(Var("d"))>>)>>
+                           [] f = "infunc" -> <<Func("cp", <<Param("a", "[]" \o ty), Param("b", "[]" \o ty)>>, <<>>, <<ExprS(CopyE("a", Var("b")))>>), ExprS(CallE("cp", <<Var("d"), Var("s")>>)), PrintS(<<LenE(Var("d"))>>)>>)
+                     \o <<RangeS("k", "v", Var("d"), <<PrintS(<<Var("k"), Var("v")>>)>>),
                        SetIdx("s", N(0), NewOf(ty)),          \* a copy is not an alias
                        IF ld + ls = 0 THEN PrintS(<<StrL("empty")>>) ELSE PrintS(<<IndexE(Var("d"), N(0))>>)>>)
-              : ty \in {"int", "bool", "string"}, ld \in 0..(IF Quick THEN 4 ELSE 6), ls \in 0..(IF Quick THEN 4 ELSE 6)}
+              : f \in CopyForms, ty \in {"int", "bool", "string"}, ld \in 0..(IF Quick THEN 4 ELSE 6), ls \in 0..(IF Quick THEN 4 ELSE 6)}
 
 \* (5) miscellaneous slice forms: var default, literal of expressions, index by expression, slices of every type through functions
 MiscCases ==
